@@ -281,14 +281,14 @@ check("C19",
       passes=[dict(name="C19", src=["harness/C19.cpp"] + ENV, variant="fast", shards={"quick": 16, "thorough": 16}),
               dict(name="C19asan", src=["harness/C19.cpp"] + ENV, variant="asan", shards={"quick": 16, "thorough": 16},
                    args={"quick": ["--asan"], "thorough": ["--asan"]})],
-      rule="EVERY ordered history of <= 3 (quick) / <= 4 (thorough) operations over a 27-operation alphabet with at least one "
+      rule="EVERY ordered history of <= 3 (quick) / <= 4 (thorough) operations over a 29-operation alphabet with at least one "
            "operation per table / farm / list family (string pool incl. pool roll-over and oversize words, identifiers, other names, "
            "pointer/reference/array, qualified, product/sum, function/forall/ptr-to-member/tor, as-type/decltype/auto, transfers, "
            "literals/template-ids, symbols, expression farms, declaration + redeclaration, function + templates, class, enum with 70 "
            "enumerators, namespaces, blocks with handlers and every statement kind, lambda/closure/requires/where, directives, "
-           "declarator forms, sub-regions, module units, substitutions, reading every unit's links, printing) on a fresh Lexicon + units, destroyed in language "
+           "declarator forms, sub-regions, module units, substitutions, reading every unit's links, one-sided bulk insertions, empty warehouses, printing) on a fresh Lexicon + units, destroyed in language "
            "order; oracle = exact accounting by the replaced operator new/delete: live blocks AND bytes after destruction equal the "
-           "counts before construction and no delete of a non-live pointer (an imbalance must reproduce on replay); plus 27 chains of "
+           "counts before construction and no delete of a non-live pointer (an imbalance must reproduce on replay); plus 29 chains of "
            "50 Lexicons with overlapping lifetimes; the same histories to depth 2 (3) under ASan+UBSan for stale accesses. "
            "distinct_nontrivial = ordered histories of >= 2 operations.",
       text="Every operation history up to the bound is executed on the real Lexicon and destroyed; allocation balance is "
@@ -306,14 +306,14 @@ check("C18",
            "child with a 1 MiB stack, 5 s CPU and 1 MiB output budget, outcome classified by the parent; (b) literals spelled by each "
            "of the 256 single bytes, 225 ordered pairs and 45 mixed words from {0,1,2,3,7,8,9,10,13,27,\\,\",a,0x80,0xff}, bare / as "
            "operand / as statement; (c) 5 delimiters x 5 contents x 3 contexts; (d) EVERY statement tree of depth <= 3 over 18 forms "
-           "(86190 trees, from initial indentation 0 and 6), plus in thorough every unary form over every depth-3 tree and every "
+           "(86190 trees, from initial indentation 0 and 6; the 168 trees of depth <= 2 also from 31, 64 and 255), plus in thorough every unary form over every depth-3 tree and every "
            "binary form pairing a depth-3 tree with a leaf; (e) 11 kinds of complete declarations (var, field, bit-field, alias, class with "
            "bases, union, enum, namespace, function with body and handlers, template, nested class) x 0..3 members x 4 flavours, through "
            "xpr_decl, xpr_stmt and xpr_expr from initial indentation 0 and 6. Oracle per case: outcome is completion or std::logic_error (never SIGSEGV, "
            "timeout, runaway output or another exception); stream flags/fill/width/precision unchanged; a nesting level, a position "
            "and a file/line/column written afterwards through the same printer read ' 10 9 ' and 'F8:64:100'; no byte < 0x20 except "
            "newline (nor 0x7f) that is not in a spelling of the graph; Printer::indent() restored after each completed top-level "
-           "statement or declaration. distinct_nontrivial = statement trees printed to completion.",
+           "statement or declaration; the same printer asked a second time ends the same way with the same text. distinct_nontrivial = statement trees printed to completion.",
       text="Every node kind x entry point, every literal byte, every delimiter and every statement nesting up to the bound is "
            "printed by the real printer; fatal outcomes are observed in sandbox children.",
       note="A construct the printer refuses with std::logic_error is admissible. Stack exhaustion within 1 MiB is taken as "
@@ -354,7 +354,8 @@ check("C17",
            "6^3 three-declaration scopes. Each program is built under EVERY history of the set {plain; ascending / descending / "
            "alternating heap addresses; 1000 unrelated nodes first; independent sub-terms built in reverse; reverse+descending+noise; "
            "unrelated factory calls -- including requests for the very names, labels, literals and types the program uses -- injected "
-           "before construction step k for EVERY k; thorough: before every PAIR of steps}. Oracle: printed bytes identical across all "
+           "before construction step k for EVERY k; the unit printed (text discarded) before step k for EVERY k, and before all steps; "
+           "thorough: noise before every PAIR of steps}. Oracle: printed bytes identical across all "
            "histories; three further fresh printers on the same graph reproduce them; fingerprint of every node the program built "
            "unchanged by printing; with print_locations on the text is the off-text with only the F<file>:<line>[:<col>] tokens of "
            "located nodes inserted (each shows, none invented), off => none. distinct_nontrivial = programs printed to completion.",
@@ -368,7 +369,7 @@ check("C17",
 
 check("C20",
       passes=[dict(name="C20", src=["harness/C20.cpp"] + ENV, variant="fast", shards={"quick": 16, "thorough": 16}),
-              dict(name="C20tsan", src=["harness/C20.cpp"], variant="tsan", flags=["-DC20_TSAN"], shards={"quick": 4, "thorough": 8})],
+              dict(name="C20tsan", src=["harness/C20.cpp"], variant="tsan", flags=["-DC20_TSAN"], shards={"quick": 5, "thorough": 10})],
       rule="(a) serialising scheduler over hooked scheduling points (every operator new, operator delete, std::_Hash_bytes, every "
            "stream write, operation boundaries, thread start/end, rendezvous): for EVERY assignment of 5 construction programs "
            "(declare+print with locations, type towers, interning incl. reserved words, literals/labels/symbols/linkages, class+enum+"
@@ -377,8 +378,9 @@ check("C20",
            "assignments up to permutation with <= 1 preemption (quick) / all 125 with <= 2 (thorough). Oracle per schedule: each "
            "thread's trace byte-identical to the same program run alone; nodes handed out by two live Lexicons intersect only in the "
            "process-wide constants; per-thread allocation balance (a block allocated by one thread and released by another is a "
-           "violation); replayed twice before report. (b) the same bodies free-running on 2,3,4,8,16 threads under ThreadSanitizer: "
-           "no report. distinct_nontrivial = thread/program configurations explored.",
+           "violation); replayed twice before report. also two (three) Lexicons alive on ONE thread running the same program. "
+           "(b) the same bodies free-running on 2,3,4,8,16 threads under ThreadSanitizer, each process starting COLD with 8 threads at "
+           "once (lazily built process-wide state is raced for there): no report. distinct_nontrivial = thread/program configurations explored.",
       text="All schedules up to a preemption bound of the real library under a controlled scheduler, plus a free-running "
            "ThreadSanitizer pass of the same thread bodies for unsynchronised plain accesses.",
       note="Preemption is explored at allocation / hash / stream-write / operation granularity only; plain accesses between two "
